@@ -215,7 +215,7 @@ def run_shard(spec, seed):
 
 
 def plan(tier):
-    return progrun.plan_cases(tier, 1600, 120000)
+    return progrun.plan_cases(tier, 3200, 120000)
 
 
 COMMON_RULES = [
